@@ -341,3 +341,483 @@ class C17(Suite):
         return fn in ("div", "div_s", "mul_s") or (len(a) == 2 and a[0] == a[1])
 
 SUITES = {c.pid: c for c in (C01, C02, C03, C04, C06, C15, C17, C18)}
+
+# =============================================================================================
+# floating point, mixed types
+import struct
+def rn_int(n, p):
+    """round integer n to p significant bits, ties to even; returns exact Fraction"""
+    if n == 0: return Fraction(0)
+    s, m = (-1 if n < 0 else 1), abs(n)
+    bl = m.bit_length()
+    if bl <= p: return Fraction(n)
+    sh = bl - p
+    q, r = m >> sh, m & ((1 << sh) - 1)
+    half = 1 << (sh - 1)
+    if r > half or (r == half and (q & 1)): q += 1
+    return Fraction(s * (q << sh))
+def ulp_of(y, p):
+    """spacing of a p-bit binary format at magnitude |y| > 0 (normal range)"""
+    y = abs(Fraction(y))
+    e = 0
+    n, d = y.numerator, y.denominator
+    e = n.bit_length() - d.bit_length()
+    if Fraction(2) ** e > y: e -= 1
+    return Fraction(2) ** (e - p + 1)
+def f32_value(bits):
+    return struct.unpack("<f", struct.pack("<I", bits))[0]
+def f64_value(bits):
+    return struct.unpack("<d", struct.pack("<Q", bits))[0]
+
+def double_patterns(rng, n):
+    out = set()
+    specials = [0.0, -0.0, 0.5, -0.5, 1.0, 2147483647.0, -2147483647.0, 2147483646.99999, 2147483648.0, 2147483646.5,
+                float("inf"), float("-inf"), float("nan"), 5e-324, 2.2250738585072014e-308, 1e308, -1e308, 2.0**31, -(2.0**31),
+                1.0 / 65536, 0.5 / 65536, 1.5 / 65536, 2.5 / 65536, 0.49999999999999994 / 65536, 0.25, 1e-5, 3.0e-6, 7.62939453125e-06]
+    for v in specials: out.add(gen.d2b(v))
+    for _ in range(n):
+        k = rng.randrange(0, 2**47)
+        for d in (0, 0.5, -0.5, 0.25, 0.4999999, 0.5000001):
+            x = (k + d) / 65536.0
+            out.add(gen.d2b(x)); out.add(gen.d2b(-x))
+        e = rng.randrange(-40, 40)
+        x = rng.random() * 2.0 ** e
+        out.add(gen.d2b(x)); out.add(gen.d2b(-x))
+        out.add(rng.getrandbits(64))
+        b = gen.d2b(float(2**31 - 1)) + rng.randrange(-40, 40)
+        out.add(b); out.add(b | (1 << 63))
+    return sorted(out)
+
+def float_patterns(rng, n, exhaustive_stride=None):
+    out = set()
+    for v in [0.0, -0.0, 0.5, 1.0, 2147483648.0, -2147483648.0, 2147483520.0, float("inf"), float("-inf"), 1e-45, 1.17549435e-38, 3.4e38,
+              1.0 / 65536, 0.5 / 65536, 1.5 / 65536, 128.0, 8388608.0, 16777216.0, 90.0, 180.0, 360.0, -90.0, 45.0]:
+        out.add(gen.f2b(v))
+    out.add(0x7fc00000); out.add(0xffc00000); out.add(0x7f800001)
+    for _ in range(n):
+        out.add(rng.getrandbits(32))
+        e = rng.randrange(-30, 34)
+        x = rng.random() * 2.0 ** e
+        out.add(gen.f2b(x)); out.add(gen.f2b(-x))
+        b = gen.f2b(2147483520.0) + rng.randrange(-20, 20)
+        out.add(b); out.add(b | (1 << 31))
+    if exhaustive_stride:
+        out |= set(range(0, 2**32, exhaustive_stride))
+    return sorted(out)
+
+class C05(Suite):
+    pid = "C05"; spec_module = "FixedMath.Spec.C05"
+    def ops(self, tier, rng, pool):
+        n = 3000 if tier == "quick" else 100000
+        out = []
+        for b in double_patterns(rng, n): out.append("fp_to_fixed:f64 %d" % b)
+        for b in float_patterns(rng, n * 3, None if tier == "quick" else 4099): out.append("fp_to_fixed:f32 %d" % b)
+        xs = set(v for v in pool if v != I64MIN)
+        for _ in range(n * 3): xs.add(gen.strat(rng))
+        for x in sorted(xs):
+            out.append("to_fp:f64 %d" % x); out.append("to_fp:f32 %d" % x)
+            if abs(x) < 2**47 + 10: out.append("roundtrip_d %d" % x)
+        for _ in range(n * 2):
+            x = gen.strat(rng, 47); out.append("roundtrip_d %d" % x)
+        return out
+    def nontrivial(self, fn, tag, a):
+        if fn == "fp_to_fixed":
+            v = f64_value(a[0]) if tag == "f64" else f32_value(a[0])
+            return not (abs(v) < 2**31 - 2) or v != v
+        return abs(a[0]) >= 2**24
+    def oracle(self, fn, tag, a, r):
+        if fn == "fp_to_fixed":
+            v = f64_value(a[0]) if tag == "f64" else f32_value(a[0])
+            p = 53 if tag == "f64" else 24
+            if v != v or v in (float("inf"), float("-inf")) or not (abs(v) < 2**31 - 1):
+                return None if isnan_raw(r) else "fixed(%r) = raw %d is not NaN" % (v, r)
+            if isnan_raw(r): return "fixed(%r) is NaN although |v| < 2^31-1" % v
+            y = Fraction(v) * 65536
+            tol = Fraction(1, 2) + (ulp_of(abs(y) + Fraction(1, 2), p) / 2 if y != 0 else 0)
+            if abs(r - y) > tol: return "fixed(%r) = raw %d, exact %s, error exceeds %s" % (v, r, y, tol)
+            if abs(r - y) == Fraction(1, 2) and abs(r) < abs(y): return "tie not rounded away from zero: fixed(%r) = raw %d" % (v, r)
+            return None
+        if fn == "to_fp":
+            x = a[0]
+            if r == "nan": return "conversion to floating point gives NaN"
+            val = Fraction(f64_value(r)) if tag == "f64" else Fraction(f32_value(r))
+            if tag == "f64":
+                if abs(x) <= 2**53: return None if val == Fraction(x, 65536) else "double(raw %d) = %s is not exact" % (x, val)
+                return None if val == rn_int(x, 53) / 65536 else "double(raw %d) not correctly rounded" % x
+            return None if val == rn_int(x, 24) / 65536 else "float(raw %d) = %s is not the correctly rounded value %s" % (x, val, rn_int(x, 24) / 65536)
+        if fn == "roundtrip_d":
+            x = a[0]
+            if abs(x) < (2**31 - 1) * 65536: return None if r == x else "fixed -> double -> fixed of raw %d gives %d" % (x, r)
+            return None   # the sliver 2^31-1 <= |x| < 2^31 and beyond: sentence 1 of C05 demands NaN (see DESIGN.md)
+
+def c01_expect(e):
+    return e if abs(e) <= F else None   # None = must be NaN
+
+class C16(Suite):
+    pid = "C16"; spec_module = "FixedMath.Spec.C16"
+    def ops(self, tier, rng, pool):
+        m = 40 if tier == "quick" else 600
+        out = []
+        fin = [v for v in pool if finite(v)]
+        def some_a(k):
+            return [rng.choice(fin) for _ in range(k)] + [gen.strat(rng) for _ in range(k)] + [gen.strat(rng, 40) for _ in range(k)] + [0, 65536, -65536, F, -F]
+        for t in INT_TYPES:
+            for nn in gen.type_values(rng, t, m, pool):
+                for a in some_a(2):
+                    for f in ("add_i", "radd_i", "addeq_i", "sub_i", "rsub_i", "subeq_i", "mul_s", "rmul_s", "muleq_s", "div_s", "diveq_s", "rdiv_i"):
+                        out.append("%s:%s %d %d" % (f, t, a, nn))
+        for b in float_patterns(rng, m * 20):
+            for a in some_a(1):
+                for f in ("add_f", "radd_f", "addeq_f", "sub_f", "rsub_f", "subeq_f", "mul_f", "rmul_f", "muleq_f", "div_f", "rdiv_f", "diveq_f"):
+                    out.append("%s %d %d" % (f, a, b))
+        for b in double_patterns(rng, m * 4):
+            for a in some_a(1):
+                for f in ("add_d", "radd_d", "sub_d", "rsub_d", "mul_d", "rmul_d", "div_d", "rdiv_d"):
+                    out.append("%s %d %d" % (f, a, b))
+        return out
+    def nontrivial(self, fn, tag, a):
+        return tag == "u64" and a[1] >= 2**63 or abs(a[0]) >= 2**46 or fn.endswith("_d")
+    def oracle(self, fn, tag, a, r):
+        x, t = a
+        if fn.endswith("_d"):
+            d = f64_value(t)
+            xa = float(x) / 65536.0
+            try:
+                e = {"add_d": lambda: xa + d, "radd_d": lambda: d + xa, "sub_d": lambda: xa - d, "rsub_d": lambda: d - xa,
+                     "mul_d": lambda: xa * d, "rmul_d": lambda: d * xa,
+                     "div_d": lambda: pydiv(xa, d), "rdiv_d": lambda: pydiv(d, xa)}[fn]()
+            except OverflowError:
+                return None
+            if e != e: return None if r == "nan" else "%s: expected NaN, got bits %s" % (fn, r)
+            if r == "nan": return "%s: got NaN, expected %r" % (fn, e)
+            return None if gen.d2b(e) == r else "%s(raw %d, %r) = %r, IEEE result %r" % (fn, x, d, f64_value(r), e)
+        if r == "nan": return "integer-valued result expected"
+        if tag in INT_TYPES:
+            n = t
+            if fn in ("mul_s", "rmul_s", "muleq_s"): return C02().oracle("mul_s", tag, [x, n], r)
+            if fn in ("div_s", "diveq_s"): return C03().oracle("div_s", tag, [x, n], r)
+            if abs(n) > 2**31 - 1: return None          # conversion is NaN: outside the property's premise
+            c = n * 65536
+            if fn in ("add_i", "radd_i", "addeq_i"): return C01().oracle("add", "", [x, c], r)
+            if fn in ("sub_i", "subeq_i"): return C01().oracle("sub", "", [x, c], r)
+            if fn == "rsub_i": return C01().oracle("sub", "", [c, x], r)
+            if fn == "rdiv_i": return C03().oracle("div", "", [c, x], r)
+            return None
+        # float operand: admissible conversions c of t per C05, result must equal op(a, c) for one of them
+        v = f32_value(t)
+        if v != v or not (abs(v) < 2**31 - 1): return None
+        y = Fraction(v) * 65536
+        tol = Fraction(1, 2) + (ulp_of(abs(y) + Fraction(1, 2), 24) / 2 if y != 0 else 0)
+        lo, hi = math.ceil(y - tol), math.floor(y + tol)
+        if hi - lo > 64: return None
+        b = fn[:-2].lstrip("r") if fn.startswith("r") else fn[:-2]
+        b = b.replace("eq", "")
+        errs = []
+        for c in range(lo, hi + 1):
+            if fn.startswith("r"): args = [c, x]
+            else: args = [x, c]
+            w = {"add": C01().oracle, "sub": C01().oracle, "mul": C02().oracle, "div": C03().oracle}[b](b, "", args, r)
+            if w is None: return None
+            errs.append(w)
+        return "no admissible conversion of %r explains the result: %s" % (v, errs[0])
+
+def pydiv(a, b):
+    if b == 0:
+        if a == 0 or a != a: return float("nan")
+        s = math.copysign(1, a) * math.copysign(1, b)
+        return math.copysign(float("inf"), s)
+    return a / b
+
+for c in (C05, C16): SUITES[c.pid] = c
+
+# =============================================================================================
+# sqrt, hypot
+def isqrt(n): return math.isqrt(n)
+
+class C13(Suite):
+    pid = "C13"; spec_module = "FixedMath.Spec.C13"; needs_abacus_leg = True
+    fns = ("sqrt_abacus", "sqrt_std", "sqrt:dflt")
+    def ops(self, tier, rng, pool):
+        n = 6000 if tier == "quick" else 300000
+        xs = set(v for v in pool if 0 <= v < 2**47) | set(range(0, 3000))
+        for _ in range(n):
+            r = gen.strat(rng, 31, signed=False)
+            N = r * r
+            for NN in (N, N - 1, N + 1, N + r, N + r + 1, N + 2 * r, N + 2 * r + 1):
+                v = NN >> 16
+                for d in (-1, 0, 1):
+                    if 0 <= v + d < 2**47: xs.add(v + d)
+            k = gen.strat(rng, 23, signed=False) * 256
+            if k * k // 65536 < 2**47: xs.add(k * k // 65536)
+            v = gen.strat(rng, 47, signed=False); xs.add(v); xs.add(v + 1)
+        out = []
+        for x in sorted(xs):
+            for f in self.fns: out.append("%s %d" % (f, x))
+        for v in [-1, -2, -65536, -F, -NANP, -(2**47)] + [-gen.strat(rng, 62, signed=False) - 1 for _ in range(200)]:
+            for f in self.fns: out.append("%s %d" % (f, v))
+        return out
+    def nontrivial(self, fn, tag, a):
+        N = a[0] << 16 if a[0] >= 0 else 0
+        r = isqrt(N)
+        return a[0] < 0 or a[0] >= 2**46 or r * r == N
+    def oracle(self, fn, tag, a, r):
+        v = a[0]
+        if v < 0: return None if isnan_raw(r) else "sqrt(raw %d) = %d is not NaN" % (v, r)
+        if v >= 2**47: return None
+        N = v << 16
+        if r < 0: return "sqrt(raw %d) = %d is negative" % (v, r)
+        if not ((r == 0 or (r - 1) ** 2 < N) and N < (r + 1) ** 2) and not (N == 0 and r == 0):
+            return "sqrt(raw %d) = %d, true root %d.., error >= 1 ulp" % (v, r, isqrt(N))
+        s = isqrt(N)
+        if s * s == N and r != s: return "sqrt of the exact square raw %d is %d, not %d" % (v, r, s)
+        return None
+    def post(self, res):
+        bad = []
+        for f in self.fns:
+            pts = sorted((suites_arg(l), r, l) for l, r in res.items() if l.startswith(f + " ") and 0 <= suites_arg(l) < 2**47)
+            for (x0, r0, l0), (x1, r1, l1) in zip(pts, pts[1:]):
+                if r1 < r0: bad.append((l1, "not monotone: %s(%d) = %d > %s(%d) = %d" % (f, x0, r0, f, x1, r1)))
+        return bad
+
+def suites_arg(line): return int(line.split()[1])
+
+class C14(Suite):
+    pid = "C14"; spec_module = "FixedMath.Spec.C14"; needs_abacus_leg = True
+    def ops(self, tier, rng, pool):
+        n = 6000 if tier == "quick" else 300000
+        pairs = set()
+        b47 = [v for v in pool if abs(v) < 2**47]
+        edge = [v for v in b47 if 2**28 <= abs(v) <= 2**31 or abs(v) <= 70000 or abs(v) >= 2**45]
+        for a in rng.sample(edge, min(len(edge), 120)):
+            for b in rng.sample(edge, 25): pairs.add((a, b))
+        for _ in range(n):
+            pairs.add((gen.strat(rng, 46), gen.strat(rng, 46)))
+            pairs.add((gen.strat(rng, 30), gen.strat(rng, 16)))
+            a = rng.randrange(2**29, 2**30); pairs.add((a, gen.strat(rng, 16))); pairs.add((a + rng.randrange(0, 2**20), gen.strat(rng, 30)))
+            pairs.add((gen.strat(rng, 46), 0))
+        out = []
+        for a, b in sorted(pairs):
+            out.append("hypot:dflt %d %d" % (a, b)); out.append("hypot:dflt %d %d" % (b, a)); out.append("hypot:dflt %d %d" % (abs(a), abs(b)))
+        return out
+    def nontrivial(self, fn, tag, a):
+        return max(abs(a[0]), abs(a[1])) >= 2**29 or min(abs(a[0]), abs(a[1])) < 65536
+    def oracle(self, fn, tag, a, r):
+        x, y = abs(a[0]), abs(a[1])
+        S = x * x + y * y
+        if isnan_raw(r) or r < 0: return "hypot(raw %d, raw %d) = %d is NaN or negative" % (a[0], a[1], r)
+        if x < 2**30 and y < 2**30:
+            lo = max(r - 2, 0)
+            if not (lo * lo <= S <= (r + 2) ** 2): return "hypot(raw %d, raw %d) = %d, true %.3f: error > 2 ulp" % (a[0], a[1], r, math.sqrt(S))
+            return None
+        k = Fraction(3, 20000)
+        if not (((1 - k) ** 2) * S <= r * r <= ((1 + k) ** 2) * S): return "hypot(raw %d, raw %d) = %d, true %.1f: relative error > 1.5e-4" % (a[0], a[1], r, math.sqrt(S))
+        return None
+    def post(self, res):
+        bad = []
+        for l, r in res.items():
+            _, _, a = parse_line(l)
+            for l2 in ("hypot:dflt %d %d" % (a[1], a[0]), "hypot:dflt %d %d" % (abs(a[0]), abs(a[1]))):
+                if l2 in res and res[l2] != r: bad.append((l, "hypot not symmetric / sign independent: %s -> %d but %s -> %d" % (l, r, l2, res[l2])))
+        return bad
+
+# =============================================================================================
+# trigonometry
+PI = math.pi
+def hp():
+    if mpmath is None: return None
+    return mpmath
+
+def ref_check(err_fn_fast, err_fn_hp, bound_fast):
+    pass
+
+class C09(Suite):
+    pid = "C09"; spec_module = "FixedMath.Spec.C09"; ub_sample = 30000
+    def ops(self, tier, rng, pool):
+        out = []
+        lim = 2 * PHI
+        for v in range(-lim - 2, lim + 3):
+            out.append("sin %d" % v); out.append("cos %d" % v)
+        n = 3000 if tier == "quick" else 200000
+        for _ in range(n):
+            x = gen.strat(rng, 61); k = rng.randrange(-2**40, 2**40) if rng.random() < 0.5 else rng.randrange(-50, 50)
+            y = x + k * 2 * PHI
+            if abs(y) < 2**62:
+                for f in ("sin", "cos"): out.append("%s %d" % (f, x)); out.append("%s %d" % (f, y))
+        for v in pool:
+            if abs(v) < 2**62: out.append("sin %d" % v); out.append("cos %d" % v); out.append("sin_range %d" % v)
+        return out
+    def nontrivial(self, fn, tag, a):
+        return abs(a[0]) > PHI // 2
+    def oracle(self, fn, tag, a, r):
+        if fn == "sin_range": return None
+        v = a[0]
+        if abs(r) > 65536: return "%s(raw %d) = %d is outside [-1, 1]" % (fn, v, r)
+        if abs(v) > 2 * PHI: return None
+        x = v / 65536.0
+        t = math.sin(x) if fn == "sin" else math.cos(x)
+        rr = abs(math.asin(max(-1.0, min(1.0, t))))
+        bound = 4 / 65536.0 + rr ** 9 / 362880.0
+        err = abs(r / 65536.0 - t)
+        if err > bound + 1e-9: return "%s(raw %d) = %d: error %.3f ulp exceeds 4 ulp + r^9/9! = %.3f ulp" % (fn, v, r, err * 65536, bound * 65536)
+        if err > bound - 1e-9 and mpmath:
+            X = mpmath.mpf(v) / 65536
+            T = mpmath.sin(X) if fn == "sin" else mpmath.cos(X)
+            if abs(mpmath.mpf(r) / 65536 - T) > mpmath.mpf(4) / 65536 + abs(mpmath.asin(T)) ** 9 / 362880:
+                return "%s(raw %d) = %d exceeds the bound (high precision)" % (fn, v, r)
+        return None
+    def post(self, res):
+        bad = []
+        for l, r in res.items():
+            fn, _, a = parse_line(l)
+            if fn not in ("sin", "cos"): continue
+            x = a[0]
+            if abs(x) <= 2 * PHI + 2: continue
+            # periodicity against the reduced representative in the exhaustive range
+            m = 2 * PHI
+            y = x - (x // m) * m
+            for yy in (y, y - m):
+                l2 = "%s %d" % (fn, yy)
+                if l2 in res and abs(yy) < 2**62 and res[l2] != r:
+                    bad.append((l, "%s not periodic: %s -> %d, %s -> %d" % (fn, l, r, l2, res[l2])))
+        return bad
+
+def tan_ref_ok(v, r, const):
+    x = v / 65536.0
+    t = math.tan(x)
+    err = abs(r / 65536.0 - t)
+    bound = const / 65536.0 * (1 + t * t)
+    if err <= bound * (1 - 1e-7): return True
+    if err > bound * (1 + 1e-7) or not mpmath: return False
+    X = mpmath.mpf(v) / 65536; T = mpmath.tan(X)
+    return abs(mpmath.mpf(r) / 65536 - T) <= mpmath.mpf(const) / 65536 * (1 + T * T)
+
+class C10(Suite):
+    pid = "C10"; spec_module = "FixedMath.Spec.C10"; ub_sample = 30000
+    def ops(self, tier, rng, pool):
+        out = ["tan %d" % v for v in range(-PHI - 2, PHI + 3)]
+        n = 3000 if tier == "quick" else 200000
+        for _ in range(n):
+            x = gen.strat(rng, 60, signed=False); k = rng.randrange(0, 2**40) if rng.random() < 0.5 else rng.randrange(0, 50)
+            if x + k * PHI < 2**62: out += ["tan %d" % x, "tan %d" % (x + k * PHI), "tan %d" % (-x)]
+            j = rng.randrange(0, 2**41)
+            p = j * PHI + PIDIV2
+            for d in (-1, 0, 1):
+                if p + d < 2**62: out += ["tan %d" % (p + d), "tan %d" % (-(p + d))]
+        for v in pool:
+            if abs(v) < 2**62: out += ["tan %d" % v, "tan %d" % (-v), "tan_range %d" % abs(v)]
+        return out
+    def nontrivial(self, fn, tag, a):
+        return abs(a[0]) > PIDIV4
+    def oracle(self, fn, tag, a, r):
+        if fn != "tan": return None
+        v = a[0]
+        pole = abs(v) % PHI == PIDIV2
+        if isnan_raw(r): return None if pole else "tan(raw %d) is NaN away from the pole" % v
+        if pole: return "tan(raw %d) = %d is not NaN at the pole" % (v, r)
+        if abs(v) > PHI: return None
+        return None if tan_ref_ok(v, r, 2.5) else "tan(raw %d) = %d (true %.6f): exceeds 2.5 ulp*(1+tan^2)" % (v, r, math.tan(v / 65536.0) * 65536)
+    def post(self, res):
+        bad = []
+        for l, r in res.items():
+            fn, _, a = parse_line(l)
+            if fn != "tan": continue
+            x = a[0]
+            l2 = "tan %d" % (-x)
+            if l2 in res and not isnan_raw(r) and res[l2] != -r: bad.append((l, "tan not odd: %s -> %d, %s -> %d" % (l, r, l2, res[l2])))
+            if x > PHI + 2:
+                l3 = "tan %d" % (x % PHI)
+                if l3 in res and res[l3] != r: bad.append((l, "tan not periodic: %s -> %d, %s -> %d" % (l, r, l3, res[l3])))
+        return bad
+
+class C11(Suite):
+    pid = "C11"; spec_module = "FixedMath.Spec.C11"; ub_sample = 30000
+    def ops(self, tier, rng, pool):
+        out = []
+        top = 200000 if tier == "quick" else 600000
+        for v in range(0, top): out.append("atan %d" % v)
+        for v in range(0, top, 7): out.append("atan %d" % (-v))
+        for v in range(0, 28672 + 5): out.append("atan_k16 %d" % v)
+        n = 6000 if tier == "quick" else 300000
+        for _ in range(n):
+            x = gen.strat(rng, 47); out.append("atan %d" % x); out.append("atan %d" % (-x)); out.append("atan %d" % (x + 1))
+            y, xx = gen.strat(rng, 46), gen.strat(rng, 46)
+            out.append("atan2 %d %d" % (y, xx))
+            out.append("atan2 %d %d" % (gen.strat(rng, 46), gen.strat(rng, 12)))
+            out.append("atan2 %d %d" % (gen.strat(rng, 12), gen.strat(rng, 46)))
+            out.append("atan2 %d %d" % (gen.strat(rng, 20), gen.strat(rng, 20)))
+        b = [v for v in pool if abs(v) < 2**47]
+        for v in b: out += ["atan %d" % v, "atan2 %d 0" % v, "atan2 0 %d" % v, "atan2 %d %d" % (v, v), "atan2 %d %d" % (v, -v), "atan2 %d 1" % v, "atan2 %d -1" % v, "atan2 1 %d" % v]
+        out.append("atan2 0 0")
+        return out
+    def nontrivial(self, fn, tag, a):
+        return abs(a[0]) >= 28672 or (fn == "atan2" and (a[0] == 0 or a[1] <= 0))
+    def oracle(self, fn, tag, a, r):
+        if fn == "atan":
+            v = a[0]
+            if abs(v) >= 2**47: return None
+            if abs(r) > PIDIV2: return "|atan(raw %d)| = %d exceeds the library's pi/2" % (v, abs(r))
+            err = abs(r / 65536.0 - math.atan(v / 65536.0))
+            return None if err <= 5e-5 + 1e-12 else "atan(raw %d) = %d: error %.3e > 5e-5" % (v, r, err)
+        if fn == "atan2":
+            y, x = a
+            if abs(y) >= 2**47 or abs(x) >= 2**47: return None
+            if x == 0 and y == 0: return None if isnan_raw(r) else "atan2(0,0) = %d is not NaN" % r
+            if isnan_raw(r): return "atan2(raw %d, raw %d) is NaN" % (y, x)
+            if x == 0: return None if r == (PIDIV2 if y > 0 else -PIDIV2) else "atan2(raw %d, 0) = %d" % (y, r)
+            if y == 0: return None if r == (0 if x > 0 else PHI) else "atan2(0, raw %d) = %d" % (x, r)
+            if (y > 0 and r < 0) or (y < 0 and r > 0): return "atan2(raw %d, raw %d) = %d has the wrong sign" % (y, x, r)
+            t = math.atan2(y, x)
+            err = abs(r / 65536.0 - t)
+            if err > math.pi: err = abs(err - 2 * math.pi)      # -pi and pi denote the same angle
+            return None if err <= 8e-5 + 1e-12 else "atan2(raw %d, raw %d) = %d: error %.3e > 8e-5" % (y, x, r, err)
+        return None
+    def post(self, res):
+        bad = []
+        pts = sorted((suites_arg(l), r, l) for l, r in res.items() if l.startswith("atan ") and abs(suites_arg(l)) < 2**47)
+        best = None
+        for x, r, l in pts:
+            if best is not None and r + 2 < best[1]: bad.append((l, "atan(raw %d) = %d but atan(raw %d) = %d: decreases by more than 2 ulp" % (x, r, best[0], best[1])))
+            if best is None or r > best[1]: best = (x, r)
+            l2 = "atan %d" % (-x)
+            if l2 in res and res[l2] != -r: bad.append((l, "atan not odd at raw %d" % x))
+        return bad
+
+class C12(Suite):
+    pid = "C12"; spec_module = "FixedMath.Spec.C12"; needs_abacus_leg = True; ub_sample = 30000
+    def ops(self, tier, rng, pool):
+        out = []
+        for v in range(-65536 - 40, 65536 + 41):
+            out.append("asin:dflt %d" % v); out.append("acos:dflt %d" % v)
+        for v in pool + gen.strat_list(rng, 500):
+            out.append("asin:dflt %d" % v); out.append("acos:dflt %d" % v)
+        return out
+    def nontrivial(self, fn, tag, a):
+        return abs(a[0]) > 39322
+    def oracle(self, fn, tag, a, r):
+        v = a[0]
+        if abs(v) > 65536: return None if isnan_raw(r) else "%s(raw %d) = %d is not NaN" % (fn, v, r)
+        if isnan_raw(r): return "%s(raw %d) is NaN inside [-1, 1]" % (fn, v)
+        u = 1 / 65536.0
+        if fn == "asin":
+            A = r * u
+            lo = math.asin(max(-1.0, (v - 2) * u)); hi = math.asin(min(1.0, (v + 2) * u))
+            if A + 4 * u < lo - 1e-11 or A - 4 * u > hi + 1e-11:
+                return "asin(raw %d) = %d: no x' within 2 ulp with |asin(x) - asin x'| <= 4 ulp (asin range [%.2f, %.2f] ulp)" % (v, r, lo * 65536, hi * 65536)
+            return None
+        return None
+    def post(self, res):
+        bad = []
+        pts = sorted((suites_arg(l), r, l) for l, r in res.items() if l.startswith("asin:") and abs(suites_arg(l)) <= 65536)
+        for (x0, r0, l0), (x1, r1, l1) in zip(pts, pts[1:]):
+            if r1 < r0: bad.append((l1, "asin not monotone: asin(raw %d) = %d > asin(raw %d) = %d" % (x0, r0, x1, r1)))
+        for x, r, l in pts:
+            l2 = "asin:dflt %d" % (-x)
+            if l2 in res and res[l2] != -r: bad.append((l, "asin not odd at raw %d" % x))
+            l3 = "acos:dflt %d" % x
+            if l3 in res:
+                c = res[l3]
+                if abs(c / 65536.0 - (math.pi / 2 - r / 65536.0)) > 1 / 65536.0 + 1e-12: bad.append((l3, "acos(raw %d) = %d is not within 1 ulp of pi/2 - asin = %.3f" % (x, c, (math.pi / 2) * 65536 - r)))
+                if c < -1 or c > math.pi * 65536 + 1: bad.append((l3, "acos(raw %d) = %d outside [0, pi] by more than 1 ulp" % (x, c)))
+        return bad
+
+for c in (C13, C14, C09, C10, C11, C12): SUITES[c.pid] = c
